@@ -215,6 +215,22 @@ class PropertyRun:
                 self.solver_time[v2.backend] = self.solver_time.get(v2.backend, 0.0) + v2.seconds
                 if v2.status != "unsat":
                     still.append((ob, v2))
+            if still and norm(name) in set(base.get("names_ok", [])):
+                # Confirmation pass for an obligation that was discharged on the committed tree: the failing instances are solved
+                # again one at a time (nothing else of this check running) with three times the budget, so that a verdict lost to
+                # machine load or to an unlucky solver configuration is not reported as a violation.
+                confirmed = []
+                for ob, v in still[:6]:
+                    v3 = solve_one((ob.name, to_smt2(ob), timeout_ms * 3, ob.inputs, False, ob.kind, ob.path_id, ob.line, True))
+                    self.solver_time[v3.backend] = self.solver_time.get(v3.backend, 0.0) + v3.seconds
+                    if v3.status != "unsat":
+                        confirmed.append((ob, v3))
+                        break
+                if not confirmed and len(still) <= 6:
+                    entry.setdefault("confirmed_on_second_pass", []).append(name)
+                    still = []
+                elif confirmed:
+                    still = confirmed + [x for x in still if x[0] is not confirmed[0][0]]
             if not still:
                 self.n_dis += 1
                 entry["discharged"] += 1
